@@ -77,7 +77,7 @@ func (ch *Channel) Invoke(ctx context.Context, methodName string, req, resp inte
 	r.Header = h
 	reply, err := ch.Transport.RoundTrip(r.WithContext(ctx))
 	if err != nil {
-		return statusFromContextError(err)
+		return roundTripError(ctx, err)
 	}
 
 	// we fire up a goroutine to read the response so that we can properly
@@ -468,7 +468,7 @@ func (cs *clientStream) doHttpCall(transport http.RoundTripper, req *http.Reques
 			}
 		}
 		cs.done = true
-		pipeErr := rErr
+		pipeErr := cs.rErr
 		if pipeErr == nil {
 			// a send that is in flight when the call completes fails like any
 			// later send does
@@ -509,7 +509,7 @@ func (cs *clientStream) doHttpCall(transport http.RoundTripper, req *http.Reques
 			// not be mistaken for a clean end of the response stream
 			err = io.ErrUnexpectedEOF
 		}
-		onReady(statusFromContextError(err), nil)
+		onReady(roundTripError(cs.ctx, err), nil)
 		return
 	}
 	replyBody = reply.Body
@@ -587,6 +587,17 @@ func (cs *clientStream) doHttpCall(transport http.RoundTripper, req *http.Reques
 		case cs.rCh <- msg:
 		}
 	}
+}
+
+// roundTripError translates an error returned by the transport's RoundTrip.
+// A transport need not report a cancelled or timed out request with the
+// context's own error (net/http returns the cancellation cause, if the caller
+// gave one): when the context is done, that is why the RPC ended.
+func roundTripError(ctx context.Context, err error) error {
+	if ctxErr := ctx.Err(); ctxErr != nil {
+		return statusFromContextError(ctxErr)
+	}
+	return statusFromContextError(err)
 }
 
 // statusFromContextError translates the given error, returned by a call to
